@@ -167,8 +167,14 @@ R.contract(
     "QuicConnection._handle_stop_sending_frame",
     assume_pre=[LOG, "conn_limits_distinct(self)"],
     raises={BRE: None, QCE: None, SFE: None},
-    modifies=["buf.g_pos", "context.quic_logger_frames", "self._events", "QuicStreamSender._reset_error_code[*]", "QuicStreamSender.reset_pending[*]", "QuicStreamSender.buffer_is_empty[*]"] + _GOCS_MOD,
-    ensures=["stream_id in self._streams and stream == self._streams[stream_id]", "stream.sender._reset_error_code is not None", "len(self._events) == len(old(self._events)) + 1"],
+    modifies=["buf.g_pos", "context.quic_logger_frames", "self._events", "QuicStreamSender._reset_error_code[*]", "QuicStreamSender.reset_pending[*]", "QuicStreamSender.buffer_is_empty[*]", "QuicStreamSender.stopped_by_peer[*]"] + _GOCS_MOD,
+    ensures=["stream_id in self._streams and stream == self._streams[stream_id]", "stream.sender._reset_error_code is not None", "len(self._events) == len(old(self._events)) + 1",
+             # C16 (taken from the property): a transport frame of the peer never turns a stream the application could write to
+             # into one whose next write trips an assertion - the stopped stream discards writes, every other stream is untouched
+             "stream.sender.stopped_by_peer",
+             # (stated for an arbitrary stream id gk - a universally quantified ghost parameter - instead of a forall: same meaning, quantifier-free goal)
+             "implies(gk in old(self._streams) and pre_existing(old(self._streams)[gk]) and old(q_open(self, gk)), q_open(self, gk))"],
+    ghost_params={"gk": "int"},
     on_raise={QCE: ["exc_error_code == QuicErrorCode.STREAM_STATE_ERROR or exc_error_code == QuicErrorCode.STREAM_LIMIT_ERROR", "same(self._events, old(self._events))"],
               SFE: ["stream_id in self._streams_finished", "same(self._events, old(self._events))"]},
     **_H,
